@@ -583,3 +583,129 @@ Proof.
   - intros NS. rewrite NS in A'. cbn [orb] in A'. apply andb_true_iff in A'. exact A'.
   - intros L6. rewrite L6 in B'. exact B'.
 Qed.
+
+(* ------------------------------------------------------------------ *)
+(* format(join="\n"): the text splits back into the lines               *)
+(* ------------------------------------------------------------------ *)
+Definition NL : Z := 10%Z.
+
+(* str.split(sep) for a one-character separator *)
+Fixpoint split_on (sep : Z) (s : text) : list text :=
+  match s with
+  | [] => [[]]
+  | c :: s' =>
+      if Z.eqb c sep then [] :: split_on sep s'
+      else match split_on sep s' with
+           | h :: t => (c :: h) :: t
+           | [] => [[c]]
+           end
+  end.
+
+Lemma split_on_last sep l : ~ In sep l -> split_on sep l = [l].
+Proof.
+  induction l as [|c l IH]; intros H; [reflexivity|].
+  cbn [split_on]. replace (Z.eqb c sep) with false.
+  - rewrite IH; [reflexivity|]. intros Hin. apply H. right. exact Hin.
+  - symmetry. apply Z.eqb_neq. intros E. apply H. left. exact E.
+Qed.
+
+Lemma split_on_line sep l rest : ~ In sep l ->
+  split_on sep (l ++ sep :: rest) = l :: split_on sep rest.
+Proof.
+  induction l as [|c l IH]; intros H.
+  - cbn [app split_on]. rewrite Z.eqb_refl. reflexivity.
+  - cbn [app split_on]. replace (Z.eqb c sep) with false.
+    + rewrite IH; [reflexivity|]. intros Hin. apply H. right. exact Hin.
+    + symmetry. apply Z.eqb_neq. intros E. apply H. left. exact E.
+Qed.
+
+Lemma join_text_cons2 j l l2 r : join_text j (l :: l2 :: r) = l ++ j ++ join_text j (l2 :: r).
+Proof. reflexivity. Qed.
+
+Theorem split_join sep ls : ls <> [] -> Forall (fun l => ~ In sep l) ls ->
+  split_on sep (join_text [sep] ls) = ls.
+Proof.
+  induction ls as [|l ls IH]; intros NE F; [congruence|].
+  inversion F as [|a b Hl Hr]; subst. destruct ls as [|l2 r].
+  - cbn [join_text]. apply split_on_last. exact Hl.
+  - rewrite join_text_cons2. cbn [app]. rewrite split_on_line by exact Hl.
+    f_equal. apply IH; [discriminate|exact Hr].
+Qed.
+
+Definition text_nl_free (l : text) : bool := forallb (fun c => negb (Z.eqb c NL)) l.
+Definition style_nl_free (g : seg6) : bool :=
+  forallb text_nl_free [g0 g; g1 g; g2 g; g3 g; g4 g; g5 g].
+
+Lemma text_nl_free_spec l : text_nl_free l = true -> ~ In NL l.
+Proof.
+  unfold text_nl_free. rewrite forallb_forall. intros H Hin. specialize (H NL Hin).
+  rewrite Z.eqb_refl in H. discriminate H.
+Qed.
+
+Lemma style_nl_free_inv g : style_nl_free g = true ->
+  (forall b, ~ In NL (seg_anc g b)) /\ (forall l h, ~ In NL (seg_self g l h)).
+Proof.
+  unfold style_nl_free. cbn [forallb]. rewrite !andb_true_iff.
+  intros (A & B & C & D & E & F & _). split.
+  - intros [|]; cbn [seg_anc]; apply text_nl_free_spec; assumption.
+  - intros [|] [|]; cbn [seg_self]; apply text_nl_free_spec; assumption.
+Qed.
+
+Lemma pfx_rel_nl_free g top c : style_nl_free g = true -> ~ In NL (pfx_rel g top c).
+Proof.
+  intros NF. destruct (style_nl_free_inv g NF) as [A S].
+  unfold pfx_rel. destruct (rdepth top c); [intros []|].
+  unfold full_prefix. intros Hin. apply in_app_or in Hin as [Hin|Hin].
+  - apply in_concat in Hin as (x & Hx & Hin). apply in_map_iff in Hx as (b & <- & _).
+    exact (A b Hin).
+  - exact (S _ _ Hin).
+Qed.
+
+Section TextDecode.
+  Variable table : list (text * segs).
+  Variable default_style : text.
+  Variable rend : rt -> text.
+  Hypothesis rend_nl_free : forall t, ~ In NL (rend t).
+
+  Lemma rel_lines_nl_free g top roots : style_nl_free g = true ->
+    Forall (fun l => ~ In NL l) (zip_lines rend (rel_prefixes g top roots) (pre_f roots)).
+  Proof.
+    intros NF. rewrite <- lines_rel_zip. unfold lines_rel. apply Forall_forall.
+    intros l Hl. apply in_map_iff in Hl as (c & <- & _). intros Hin.
+    apply in_app_or in Hin as [Hin|Hin].
+    - exact (pfx_rel_nl_free g top c NF Hin).
+    - exact (rend_nl_free _ Hin).
+  Qed.
+
+  (* Tree.format() with the default join: the text alone, split at the line
+     breaks, decodes to the shape (renderings known and free of line breaks) *)
+  Theorem tree_text_decodes a style g trepr f ti txt :
+    is_list_style a = false ->
+    resolve_style table default_style a = Ok style -> unpack style = Some g ->
+    style_okb g = true -> style_nl_free g = true ->
+    Forall (fun l => ~ In NL l) (title_lines trepr false ti) ->
+    tree_format table default_style rend trepr f a ti [NL] = Ok txt ->
+    decode_shape g (prefixes_of_lines (skipn (length (title_lines trepr false ti)) (split_on NL txt))
+                                      (map rend (pre_f f)))
+    = shape_f f.
+  Proof.
+    intros NL' R U OK NF TF E. unfold tree_format in E.
+    destruct (tree_format_lines table default_style rend a style g trepr f ti NL' R U) as [E' L].
+    rewrite E' in E. cbn [res_join] in E. injection E as <-.
+    set (lines := title_lines trepr false ti ++ zip_lines rend (rel_prefixes g (has_title false ti) f) (pre_f f)).
+    destruct lines as [|l0 ls] eqn:EL.
+    - (* nothing is printed: no title and an empty forest *)
+      apply app_eq_nil in EL as [_ Z]. destruct f as [|t f'].
+      + cbn [flat_map map]. unfold prefixes_of_lines. rewrite combine_nil. reflexivity.
+      + exfalso. unfold rel_prefixes in Z. rewrite ctxs_l_cons, ctxs_t_unfold in Z.
+        cbn [flat_map] in Z. rewrite pre_unfold in Z. cbn [app map] in Z.
+        unfold zip_lines in Z. cbn [combine map] in Z. discriminate Z.
+    - rewrite <- EL. rewrite split_join.
+      + unfold lines. rewrite skipn_app_len, prefixes_of_zip by exact L. apply decode_rel. exact OK.
+      + rewrite EL. discriminate.
+      + unfold lines. apply Forall_app. split; [exact TF|]. apply rel_lines_nl_free. exact NF.
+  Qed.
+End TextDecode.
+
+Definition table_nl_free (tbl : list (text * segs)) : bool :=
+  forallb (fun e => match unpack (snd e) with Some g => style_nl_free g | None => false end) tbl.
